@@ -380,7 +380,8 @@ def handle (st : DState) (j : Json) : Except String (DState × Json) := do
     -- the hypotheses of the codec theorems (C01 / C19 / C02) on this (type, value)
     let ty ← getTy st j
     let v ← valOfJson (← j.getObjVal? "v")
-    pure (st, Json.mkObj [("wf", WF.wfTy ty), ("typed", hasType ty v), ("agree", WF.agreeTy ty v)])
+    pure (st, Json.mkObj [("wf", WF.wfTy ty), ("typed", hasType ty v), ("agree", WF.agreeTy ty v), ("guard", WF.guardTy ty v),
+      ("gal", Spec.galTy ty v), ("front", Accept.front ty), ("pyrt", Accept.pyRt ty)])
   | "py_decode" =>
     let ty ← getTy st j
     let data ← ofHex (← getStr j "data")
